@@ -155,3 +155,18 @@ for _e in ENGINES:
         _e['serves_properties'].insert(1, 'C02')
 ENGINES.append({'name': 'rxnsim', 'path': '/verif/engines/rxnsim.py', 'serves_properties': ['C05'],
                 'kind_free_text': 'seeded histories of reaction objects applied to shared streams and arrays'})
+
+TEXT['C20'] = {
+    'level': 'seeded exploration of separator histories: the helpers are re-run on the same outlet streams over changing '
+             'feeds (leftovers from earlier runs), with strict on/off, a persistent warm multi_stream for the vle/lle '
+             'wrappers and model failures injected inside them; after each call that returns normally: outlets sum '
+             'to inlets per chemical, no negative flow unless infeasibility was reported (exception or warning), '
+             'achieved partition coefficients up to a common factor, requested moisture fraction, phase routing, '
+             'splits x mixed = first stream, balance residual zero.',
+    'design_ref': '5/C20', 'note': _COMMON_NOTE + '; moisture helpers only on single-phase outlets; partition outlets are '
+                                    'reserved streams written only by partition with one chemical assignment per run',
+    'technique': 'deterministic simulation: re-run histories with dirty outlets + fault injection + balance oracle',
+}
+PENDING.pop('C20', None)
+ENGINES.append({'name': 'sepsim', 'path': '/verif/engines/sepsim.py', 'serves_properties': ['C20'],
+                'kind_free_text': 'seeded histories of separation helper calls on persistent outlet streams'})
